@@ -944,7 +944,14 @@ static std::string recFail(long, const std::string &line, const char *what, long
 // ------------------------------------------------------------------------------------------------ cache mode
 static std::string cacheName(int n, int cs)
 {
-  std::string base = n == 1 ? "example.com" : n == 2 ? "example.org" : "n" + std::to_string(n) + ".example.net";
+  // names 3..6: look-alikes that differ in one NON-letter octet 0x20 apart ('@' 0x40 / '`' 0x60, '[' 0x5b / '{' 0x7b) - distinct names
+  std::string base = n == 1   ? "example.com"
+                     : n == 2 ? "example.org"
+                     : n == 3 ? "a@b.example.com"
+                     : n == 4 ? "a`b.example.com"
+                     : n == 5 ? "a[b.example.com"
+                     : n == 6 ? "a{b.example.com"
+                              : "n" + std::to_string(n) + ".example.net";
   if (cs == 2)
     for (auto &c : base) c = (char)toupper((unsigned char)c);
   if (cs == 3)
